@@ -107,7 +107,16 @@ enum Twist {
 }
 
 fn twist() -> impl Strategy<Value = Twist> {
-    let day = || prop_oneof![6 => DAY_MIN..=day_max(), 1 => Just(DAY_MIN), 1 => Just(day_max())];
+    // uniform days, the two ends of the range, year ends (day 365/366) and leap days, with the
+    // century years 2000 / 2100 / 2200 singled out
+    let day = || prop_oneof![
+        6 => DAY_MIN..=day_max(),
+        1 => Just(DAY_MIN),
+        1 => Just(day_max()),
+        1 => (1970i64..=2200).prop_map(|y| days_from_civil(y, 12, 31)),
+        1 => (493i64..=549).prop_map(|q| days_from_civil(q * 4, 2, 29)),
+        1 => prop::sample::select(vec![(2000i64, 12u32, 31u32), (2000, 2, 29), (2100, 12, 31), (2100, 2, 28), (2100, 3, 1), (2200, 2, 28), (2200, 1, 1), (1999, 12, 31), (2001, 1, 1)]).prop_map(|(y, m, d)| days_from_civil(y, m, d)),
+    ];
     prop_oneof![
         1 => any::<u16>().prop_map(Twist::Permute),
         1 => any::<u16>().prop_map(Twist::DuplicateMember),
@@ -384,6 +393,7 @@ impl Property for C06 {
             }
             Case::Named { name } => {
                 v.label("kind:named");
+                v.label_if(name.split('|').any(|h| { let mut c: Vec<String> = h.split(',').map(|x| x.to_lowercase()).collect(); c.sort(); c.dedup(); c.len() > 8 }), "named:>8-distinct-codes-in-a-section");
                 v.label_if(name.contains('|'), "named:with-settlement");
                 v.label_if(name.chars().any(|c| c.is_ascii_uppercase()), "named:mixed-case");
                 v.nt(name.contains(',') || name.contains('|'));
@@ -492,7 +502,7 @@ impl Property for C06 {
     }
 
     fn rule(&self) -> String {
-        "random (combination spec | valid name string | invalid string | equality pair). Combinations: 1-3 members and None / empty / 1-2 settlement calendars, members arbitrary (any week mask, holidays anywhere in 1970-2200 incl. its first and last day, clustered runs) or built-in; every case is compared on EVERY date 1970-01-01..2200-12-31 with the all/any model of its parts. Names: 1-3 built-in names, optional '|' + 1-2 names, random letter case; invalid strings: unknown token, empty token, stray space, >= 2 pipes. Equality pairs are constructed behaviourally equal but structurally different (members permuted / duplicated / split, holiday on a masked weekday, a masked weekday replaced by the list of all its dates as holidays, 'all' added, None vs empty settlement list, named vs explicit) or different on a single date (extra / dropped holiday, also only in a settlement calendar, also on the first/last day of the range); expected value = the harness's own full-range comparison of business and settlement days. Non-trivial: >= 2 members or a settlement list; a multi-part name; any invalid string; structurally different equality operands.".into()
+        "random (combination spec | valid name string | invalid string | equality pair). Combinations: 1-3 members and None / empty / 1-2 settlement calendars, members arbitrary (any week mask, holidays anywhere in 1970-2200 incl. its first and last day, clustered runs) or built-in; every case is compared on EVERY date 1970-01-01..2200-12-31 with the all/any model of its parts. Names: 1-3 built-in names (now and then 9-13), optional '|' + 1-2 names (or 9-13), random letter case; invalid strings: unknown token, empty token, stray space, >= 2 pipes. Equality pairs are constructed behaviourally equal but structurally different (members permuted / duplicated / split, holiday on a masked weekday, a masked weekday replaced by the list of all its dates as holidays, 'all' added, None vs empty settlement list, named vs explicit) or different on a single date (extra / dropped holiday, also only in a settlement calendar, also on the first/last day of the range, on year ends, leap days and the century years); expected value = the harness's own full-range comparison of business and settlement days. Non-trivial: >= 2 members or a settlement list; a multi-part name; any invalid string; structurally different equality operands.".into()
     }
 
     fn floors(&self, tier: Tier) -> Vec<Floor> {
@@ -500,6 +510,7 @@ impl Property for C06 {
         vec![
             Floor { label: "equality:equal", min: n / 10 },
             Floor { label: "equality:equal-with-different-week-masks", min: n / 500 },
+            Floor { label: "named:>8-distinct-codes-in-a-section", min: n / 1000 },
             Floor { label: "equality:unequal", min: n / 20 },
             Floor { label: "union:with-settlement", min: n / 10 },
             Floor { label: "named:with-settlement", min: n / 20 },
